@@ -156,3 +156,54 @@ Proof.
   - destruct (parse_response t) as [r|] eqn:E; [|discriminate].
     destruct (parse_all ts) as [rs'|]; [|discriminate]. injection H as <-. simpl. rewrite E, (IH rs' eq_refl). reflexivity.
 Qed.
+
+(* ---------- C03, HTTP client: the single call ---------- *)
+Lemma id_eqb_iff a b : id_eqb a b = true <-> a = b.
+Proof.
+  destruct a as [|x|x], b as [|y|y]; simpl; split; intro H; try discriminate; try reflexivity.
+  - apply N.eqb_eq in H. now subst.
+  - injection H as ->. apply N.eqb_refl.
+  - apply bytes_eqb_eq in H. now subst.
+  - injection H as ->. apply bytes_eqb_refl.
+Qed.
+
+Definition outcome_of (r : response) : sres :=
+  match rs_payload r with PResult raw => SOk raw | PError e => SCall e end.
+
+(* a reply bearing the call's id yields exactly that reply's result / error object *)
+Theorem http_single_own_id : forall (i : id) (r : response),
+  rs_id r = i -> http_single_resp i r = outcome_of r.
+Proof.
+  intros i r H. unfold http_single_resp, outcome_of. destruct (rs_payload r); [|reflexivity].
+  apply id_eqb_iff in H. now rewrite H.
+Qed.
+
+(* a reply bearing any other id (another number, a string where a number was sent or the reverse, null) never yields
+   Ok: a result is refused as not pending; an error object is still reported as the call's error (the code turns the
+   reply into ResponseSuccess before it looks at the id) *)
+Theorem http_single_foreign_id : forall (i : id) (r : response),
+  rs_id r <> i ->
+  http_single_resp i r = match rs_payload r with PResult _ => SErr HNotPending | PError e => SCall e end /\
+  forall raw, http_single_resp i r <> SOk raw.
+Proof.
+  intros i r H. unfold http_single_resp. destruct (rs_payload r) as [raw0|e].
+  - destruct (id_eqb (rs_id r) i) eqn:E; [apply id_eqb_iff in E; contradiction|]. split; [reflexivity|discriminate].
+  - split; [reflexivity|discriminate].
+Qed.
+
+(* from the bytes of the body: Ok only through a parsed reply with the call's own id, and then its result *)
+Theorem http_single_ok : forall (i : id) (body raw : bytes),
+  http_single i body = SOk raw <->
+  exists text single r,
+    HttpGate.read_body [] [HttpGate.FData body] http_max_response = HttpGate.RbOk text single /\
+    parse_response text = Some r /\ rs_id r = i /\ rs_payload r = PResult raw.
+Proof.
+  intros i body raw. unfold http_single. split.
+  - destruct (HttpGate.read_body [] [HttpGate.FData body] http_max_response) as [text single| | |] eqn:Eb; try discriminate.
+    destruct (parse_response text) as [r|] eqn:Ep; [|discriminate].
+    unfold http_single_resp. destruct (rs_payload r) as [raw0|e] eqn:Epl; [|discriminate].
+    destruct (id_eqb (rs_id r) i) eqn:E; [|discriminate]. intro H. injection H as ->.
+    apply id_eqb_iff in E. exists text, single, r. auto.
+  - intros [text [single [r [Eb [Ep [Ei Epl]]]]]]. rewrite Eb, Ep. unfold http_single_resp. rewrite Epl.
+    apply id_eqb_iff in Ei. now rewrite Ei.
+Qed.
